@@ -697,4 +697,18 @@ theorem countP_ge_of_all {thr : List Thread} {n : Nat} {p : Thread → Bool} (hl
     rw [List.countP_cons]
     omega
 
+/-- an enabled thread has a transition -/
+theorem enabled_step {s : State} {t : Nat} (c : Nat) (he : enabled s t = true) :
+    ∃ o, step s t c = some o := by
+  unfold enabled pcOf at he
+  unfold step
+  cases hth : s.thr[t]? with
+  | none => simp [hth] at he
+  | some th =>
+    simp only [hth, Option.map_some, Option.getD_some] at he ⊢
+    cases hp : th.pc <;> simp [hp, out, pcOf] at he ⊢
+    all_goals (try (simp_all; done))
+    all_goals (try (repeat' split) <;> simp_all <;> done)
+
+
 end TlxVerif.C11.BarM
